@@ -140,6 +140,14 @@ fn get_regex_set(v: Option<Vec<String>>) -> Result<Option<RegexSet>> {
     }
 }
 
+/// Base name of a path already known to be UTF-8; a path without one (`/`) matches as itself.
+fn base_name(path: &str) -> &str {
+    Path::new(path)
+        .file_name()
+        .and_then(|name| name.to_str())
+        .unwrap_or(path)
+}
+
 pub fn find(params: Params) -> Result<ModuleResult> {
     let paths = parse_if_json(params.paths);
     if paths.iter().map(Path::new).any(|x| x.is_relative()) {
@@ -222,13 +230,11 @@ pub fn find(params: Params) -> Result<ModuleResult> {
         .collect::<Result<Vec<_>>>()?
         .iter()
         .filter(|s| match exclude_set.as_ref() {
-            // safe unwrap: previously checked
-            Some(set) => !set.is_match(Path::new(s).file_name().unwrap().to_str().unwrap()),
+            Some(set) => !set.is_match(base_name(s)),
             None => true,
         })
         .filter(|s| match patterns_set.as_ref() {
-            // safe unwrap: previously checked
-            Some(set) => set.is_match(Path::new(s).file_name().unwrap().to_str().unwrap()),
+            Some(set) => set.is_match(base_name(s)),
             None => true,
         })
         .map(String::from)
